@@ -11,6 +11,8 @@
 //!             is compiled with #![deny(unused_unsafe)] and uncapped lints (as for the native literal: accepted)
 //!   via    9: every element calls an unsafe fn WITHOUT an unsafe block (as for the native literal: rejected,
 //!             whenever there is an element expression at all)
+//!   via   13: list forms (0, 6) whose elements are LOCAL VARIABLES of a non-Copy type, moved into the invocation (each
+//!             element expression may occur in the expansion any number of times, but must be consumed once)
 //!   via   12: the invocation sits in a scope that SHADOWS the names an unhygienic expansion could pick up: local items
 //!             `Box`, `Vec`, `GenericArray`, `Option`, `Result`, `Default`, local variants `Ok` / `Err` / `Some` / `None` and a
 //!             local `vec!` macro (paths in a macro_rules!
@@ -126,6 +128,15 @@ fn case_body(c: &[i128]) -> String {
             6 => format!("let o = observe(1, &*box_arr![{rlist}{commas}]); o"),
             7 => format!("let o = observe(1, &*box_arr![{}; {nty}]); o", r(0)),
             _ => format!("let o = observe(1, &*box_arr![{}; {count}]); o", r(0)),
+        };
+    }
+    // via 13: the elements are non-Copy locals moved into the list
+    if via == 13 {
+        let binds: String = (0..count).map(|i| format!("let s{} = e::<{}>({}); ", i, t, i)).collect();
+        let names = (0..count).map(|i| format!("s{}", i)).collect::<Vec<_>>().join(", ");
+        return match form {
+            0 => format!("{binds}let a: GenericArray<{t}, _> = arr![{names}{commas}]; observe(0, &a)"),
+            _ => format!("{binds}let a: Box<GenericArray<{t}, _>> = box_arr![{names}{commas}]; observe(1, &a)"),
         };
     }
     // via 12: the caller's scope shadows Box / Vec / GenericArray / Option / Default / vec!
@@ -459,6 +470,14 @@ fn generated_cases(thorough: bool) -> Vec<Vec<i128>> {
         for form in 0..9i128 {
             for via in [8i128, 9] {
                 v.push(vec![form, n, 0, if form == 0 || form == 6 { n % 2 } else { 0 }, via]);
+            }
+        }
+    }
+    // non-Copy locals moved into a list form
+    for n in [1i128, 2, 3, 8] {
+        for form in [0i128, 6] {
+            for et in [1i128, 2] {
+                v.push(vec![form, n, et, n % 2, 13]);
             }
         }
     }
